@@ -124,6 +124,13 @@ func scenarios(prop, tier string) []*Scenario {
 			r = append(r, &Scenario{Name: baseName(base) + "/auto-clean-boundary/storage-fault", Cfg: hdr.Config{MaxBranchDepth: 144, Base: base}, N: 3, Subs: 1,
 				Attach: []int{0}, Slots: []string{"a", "H"}, Faults: []int{1, 2, 3, 4, 5, 6}, OnlyTipParents: 1})
 		}
+		// small fork-depth limits: a fork that was started within the limit stays alive while the best
+		// chain grows far past it, then overtakes (and the old chain takes the tip back): the
+		// announcement starts right above the fork point however deep that is by then
+		for _, d := range []int{1, 2} {
+			r = append(r, &Scenario{Name: "genesis/long-lived-fork/maxdepth-" + itoa(d), Cfg: hdr.Config{MaxBranchDepth: d}, N: pick(3, 4), Subs: 1, Grows: 2, GrowBy: 3, GrowSides: 1, GrowSideBy: 4,
+				Slots: []string{"a", "H"}})
+		}
 		for _, s := range r {
 			s.oracles = []oracle{oracleC07}
 		}
